@@ -54,7 +54,7 @@ def trait_fn(facts, name):
         raise ir.AnchorMissing("trait Resampler")
     for f in tr["fns"]:
         if f["name"] == name and f.get("body"):
-            return f
+            return facts.touch("trait Resampler::%s" % name, f)
     raise ir.AnchorMissing("Resampler::%s default body" % name)
 
 
